@@ -484,15 +484,24 @@ def scen_encoder(mk, cfg, rep):
         shape = tuple(cfg['shape'])
         n = int(np.prod(shape))
         vals = [mk.real('a%d' % i) for i in range(n)]
+        # memory layout: C order, or a transposed / Fortran-ordered view (not
+        # C-contiguous) -- the saved value is the logical array either way
+        layout = cfg.get('layout', 'C')
+        bshape = shape[::-1] if layout == 'T' else shape
         if mk.sym:
-            arr = np.empty(shape, dtype=object)
-            for i, idx in enumerate(np.ndindex(*shape)):
+            arr = np.empty(bshape, dtype=object)
+            for i, idx in enumerate(np.ndindex(*bshape)):
                 arr[idx] = vals[i]
             j = Sm.json
         else:
             arr = np.array(vals, dtype=cfg.get('dtype', 'float64')).reshape(
-                shape)
+                bshape)
             j = _json
+        if layout == 'T':
+            arr = arr.T
+        elif layout == 'F':
+            arr = np.asfortranarray(arr)
+        assert arr.shape == shape
         back = j.loads(j.dumps({'v': arr}, cls=Sm.NumpyOrSetEncoder),
                        object_hook=Sm.json_numpy_or_set_obj_hook)['v']
         rep('array:type', isinstance(back, np.ndarray))
@@ -538,6 +547,9 @@ class Encoder(_Base17):
         out = [dict(kind=k) for k in INT_KINDS + FLOAT_KINDS]
         out += [dict(kind='array', shape=list(s))
                 for s in ((3, ), (2, 2), (1, 2, 2), (0, ))]
+        out += [dict(kind='array', shape=[3, 2], layout='T'),
+                dict(kind='array', shape=[2, 3], layout='F'),
+                dict(kind='array', shape=[2, 1, 3], layout='T')]
         out += [dict(kind='set', n=n) for n in (0, 1, 4)]
         return out
 
@@ -1097,16 +1109,33 @@ def _filename_samples(rng):
         x = rng.uniform(-1e3, 1e3)
         vals += [x, float(np.nextafter(x, np.inf))]
     vals += [np.float32(0.1), np.float32(2.5), np.int16(7), 'a', 'b', 'ab']
+    # narrow / wide numpy floats that agree in their leading digits
+    for base in (0.1234567, 1234567.0, 1.0000001, 3.0e-5):
+        x32 = np.float32(base)
+        vals += [x32, np.nextafter(x32, np.float32(np.inf))]
+    x16 = np.float16(0.3331)
+    vals += [x16, np.nextafter(x16, np.float16(np.inf))]
+    # (longdouble values that are not doubles are outside: they are named
+    # through their double value)
     seen = []
     for v in vals:
+        from pysym.runner import ConcreteViolation
         a, b = name_for(v), name_for(copy.deepcopy(v))
-        assert a == b, ('file name not deterministic', v, a, b)
-        assert '{' not in a and a.endswith('_x.json'), a
+        if a != b:
+            raise ConcreteViolation('C17/filename/not-deterministic',
+                                    dict(value=repr(v), names=[a, b]))
+        if '{' in a or not a.endswith('_x.json'):
+            raise ConcreteViolation('C17/filename/template-not-filled',
+                                    dict(value=repr(v), name=a))
         for w, nm in seen:
             if isinstance(v, str) != isinstance(w, str):
                 continue
-            if bool(v != w):
-                assert nm != a, ('distinct values, same file name', v, w, a)
+            with np.errstate(all='ignore'):
+                differ = bool(v != w)
+            if differ and nm == a:
+                raise ConcreteViolation(
+                    'C17/filename/distinct-values-same-name:%s' %
+                    type(v).__name__, dict(values=[repr(v), repr(w)], name=a))
         seen.append((v, a))
     return len(seen)
 
